@@ -47,8 +47,12 @@ def gen_tests(r, nfun):
         seen.add((name, ty))
         bits = int(ty[4:])
         op = r.choice(["eq", "eq", "xor", "add"])
-        tests.append({"name": name, "type": ty, "op": op, "k": r.randrange(1, 1 << 256) if op != "eq" else 0,
-                      "y0": r.randrange(1, 1 << bits)})
+        # the runtime reads the calldata word without ABI validation (CALLDATALOAD): for a narrow declared
+        # type the only failing input may well have bits above the declared width
+        y0 = r.randrange(1, 1 << bits)
+        if bits < 256 and r.random() < 0.6:
+            y0 |= r.randrange(1, 1 << (256 - bits)) << bits
+        tests.append({"name": name, "type": ty, "op": op, "k": r.randrange(1, 1 << 256) if op != "eq" else 0, "y0": y0})
     return tests
 
 
@@ -66,6 +70,8 @@ def gen_scenarios(tier, r):
 
 def run_scenario(scn, timeout=150):
     """-> list of per-run observations: {sig: {status, models: [{valid, y}]}} plus 'error'"""
+    from harness import c04_render
+
     obs = []
     prj = Project([contract(scn["runs"][0])])
     try:
@@ -84,7 +90,13 @@ def run_scenario(scn, timeout=150):
                 for mdl in ((rec or {}).get("models") or []):
                     vals = {v["variable_name"]: v["value"] for v in (mdl.get("model") or {}).values()}
                     ms.append({"valid": bool(mdl.get("is_valid")), "y": vals.get("y"), "names": sorted(mdl.get("model") or {})})
-                o["tests"][sig] = {"status": res.status(sig), "models": ms, "want": t["y0"]}
+                # what the user reads on stdout after `Counterexample:` for this test
+                printed = []
+                for blk in c04_render.printed_blocks(res.out or "").get(sig, []):
+                    asg = blk["assignment"]
+                    ys = [v for n, v in (asg or []) if n.startswith("p_y_")]
+                    printed.append({"valid": blk["valid"], "readable": asg is not None, "y": ys[0] if len(ys) == 1 else None})
+                o["tests"][sig] = {"status": res.status(sig), "models": ms, "want": t["y0"], "printed": printed}
             o["dump_files"] = sorted(str(p.relative_to(dump)) for p in dump.rglob("*") if p.is_file()) if dump.exists() else []
             obs.append(o)
     finally:
